@@ -51,7 +51,70 @@ do h1 s1.read h10 cap=10
 do top run
 end
 """)
+    return out + directed_bases()
+
+
+def directed_bases():
+    """Small bases in which one operation stays outstanding over several event boundaries; for these
+    EVERY boundary (up to DIRECTED_K) and EVERY intervention on the object named in DIRECTED is run,
+    in both tiers (no sampling): a deferred UDP wait-for-write (needs a send queue > 100 ms deep),
+    a socket-returning accept, queued resolver lookups, a pending connect."""
+    hdr = ["node n0 10.0.0.1", "node n1 10.0.0.2",
+           "hop q0 queue bw=1000000 lat=5000000 cap=0", "hop q1 queue bw=1000000 lat=5000000 cap=0",
+           "route out 10.0.0.1 q0", "route out 10.0.0.2 q1", "route in * q0"]
+    out = []
+    # 160 datagrams of 65000 bytes: m_next_send runs > 100 ms ahead, so wait_write is deferred
+    u = ["== bd_udpw", "node n0 10.0.0.1", "node n1 10.0.0.2",
+         "hop q0 queue bw=0 lat=1000 cap=0", "hop q1 queue bw=0 lat=1000 cap=0",
+         "route out 10.0.0.1 q0", "route out 10.0.0.2 q1", "route in * q1",
+         "do top u1.new n1", "do top u1.open v4", "do top u1.bind 10.0.0.2:6001",
+         "do top u0.new n0", "do top u0.open v4", "do top u0.bind 10.0.0.1:6000"]
+    u += ["do top u0.send_to 10.0.0.2:6001 len=65000 id=%d" % i for i in range(160)]
+    u += ["do top u0.wait_write h7", "do top u0.recv h6 cap=100", "do top run", "end"]
+    out.append("\n".join(u) + "\n")
+    out.append("\n".join(["== bd_accnew"] + hdr + [
+        "do top a0.new n1", "do top a0.open v4", "do top a0.bind 0.0.0.0:7000", "do top a0.listen",
+        "do top a0.accept_new s5 h0",
+        "do top t0.expires_after 1000000", "do top t0.wait h1",
+        "do top t1.expires_after 2000000", "do top t1.wait h2",
+        "do top t2.expires_after 3000000", "do top t2.wait h3",
+        "do h3 s1.new n0", "do h3 s1.connect 10.0.0.2:7000 h4",
+        "do h0 s5.read h5 cap=100",
+        "do top run", "end"]) + "\n")
+    out.append("\n".join(["== bd_res"] + hdr + [
+        "dns a.com err=ok lat=40000000 ips=1.2.3.4", "dns b.com err=host_not_found lat=10000000",
+        "do top r0.new n0 tcp",
+        "do top r0.resolve a.com 80 h0", "do top r0.resolve b.com 81 h1", "do top r0.resolve 9.9.9.9 82 h2",
+        "do top t0.expires_after 500000", "do top t0.wait h3",
+        "do top t1.expires_after 20000000", "do top t1.wait h4",
+        "do top t2.expires_after 45000000", "do top t2.wait h5",
+        "do top run", "end"]) + "\n")
+    out.append("\n".join(["== bd_conn"] + hdr + [
+        "do top a0.new n1", "do top a0.open v4", "do top a0.bind 0.0.0.0:7000", "do top a0.listen",
+        "do top s0.new n1", "do top a0.accept s0 h0",
+        "do top s1.new n0", "do top s1.connect 10.0.0.2:7000 h1",
+        "do top s2.new n0", "do top s2.connect 10.0.0.2:7001 h2",
+        "do h1 s1.write h3 stream=1 len=3000",
+        "do h0 s0.read h4 cap=100",
+        "do top run", "end"]) + "\n")
+    # segments of a write sit in a slow queue and are then dropped by the next hop: the drop
+    # notifications arrive after the intervention on the sender
+    out.append("\n".join(["== bd_drop", "node n0 10.0.0.1", "node n1 10.0.0.2",
+        "hop q0 queue bw=1000000 lat=5000000 cap=0", "hop q1 queue bw=1000000 lat=5000000 cap=0",
+        "hop d0 dropper drop=1,2,4",
+        "route out 10.0.0.1 q0 d0", "route out 10.0.0.2 q1", "route in * q1",
+        "do top a0.new n1", "do top a0.open v4", "do top a0.bind 0.0.0.0:7000", "do top a0.listen",
+        "do top s0.new n1", "do top a0.accept s0 h0",
+        "do top s1.new n0", "do top s1.connect 10.0.0.2:7000 h1",
+        "do h1 s1.write h3 stream=1 len=6000",
+        "do h3 s1.write h5 stream=1 len=3000",
+        "do h0 s0.read h4 cap=20000",
+        "do top run", "end"]) + "\n")
     return out
+
+# directed base -> (objects whose every intervention is run, boundaries 1..K)
+DIRECTED = {"bd_udpw": (["u0"], 3), "bd_accnew": (["a0"], 5), "bd_res": (["r0"], 7), "bd_conn": (["s1", "s2", "a0"], 8),
+            "bd_drop": (["s1"], 30)}
 
 
 def objects_of(scn):
@@ -117,6 +180,16 @@ def matrix(bases, counts, seed, tier):
             tk = ln.split()
             if tk and tk[0] == "node": node = tk[1]; break
         ks = list(range(1, n + 1))
+        if sid in DIRECTED:
+            dobjs, dk = DIRECTED[sid]
+            for k in range(1, min(n, dk) + 1):
+                for o in dobjs:
+                    for iv in interventions(o, uid, o in peers):
+                        uid += 1
+                        iv = re.sub(r"h5\d{4}", "h%d" % (50000 + uid), iv)
+                        if node: iv = iv.replace(" n0 ;", " %s ;" % node)
+                        out.append(with_intervention(b, k, iv, "k%d_%d" % (k, uid)))
+            continue
         if tier == "quick":
             rng.shuffle(ks); ks = sorted(ks[:6])
         elif len(ks) > 40:
